@@ -193,8 +193,24 @@ const KEYWORDS: &[&str] = &["struct", "union", "enum", "typedef", "int", "void",
 const LITERALS: &[&str] = &["0", "1", "-1", "0x7fffffff", "0xffffffffffffffff", "18446744073709551616", "1e400", "0x", "1.5f", "'a'", "\"s\"", "0b101", "077", "1ULL", "(1 << 63)", "sizeof(int)"];
 
 /// returns (operator name, mutated text)
+/// GNU attributes clang 14 accepts on x86-64 (calling conventions Rust has no name for, type and
+/// declaration attributes): spliced in front of a `;`, after a `)` or in front of an identifier
+const ATTRS: &[&str] = &["regcall", "preserve_most", "preserve_all", "ms_abi", "sysv_abi", "vectorcall", "stdcall", "fastcall", "cdecl",
+    "pascal", "thiscall", "aligned(16)", "aligned(1)", "packed", "noreturn", "deprecated", "unused", "vector_size(16)", "mode(TI)", "mode(QI)",
+    "may_alias", "transparent_union", "warn_unused_result", "const", "pure", "weak", "visibility(\"hidden\")", "overloadable", "nonnull",
+    "ext_vector_type(4)", "address_space(1)", "noderef", "btf_type_tag(\"t\")", "annotate(\"a\")", "enum_extensibility(closed)", "flag_enum"];
+
 fn mutate(r: &mut Rng, text: &str, other: &str) -> (&'static str, String) {
-    let op = r.below(12);
+    let op = r.below(13);
+    if op == 12 {
+        let mut toks = lex(text);
+        let sites: Vec<usize> = (0..toks.len()).filter(|&i| toks[i] == ";" || toks[i] == ")" || (is_ident(&toks[i]) && r.chance(1, 6))).collect();
+        if sites.is_empty() { return ("noop", text.to_owned()); }
+        let i = *r.pick(&sites);
+        let a = format!(" __attribute__(({})) ", r.pick(ATTRS));
+        if toks[i] == ")" { toks.insert(i + 1, a); } else { toks.insert(i, a); }
+        return ("attribute-splice", toks.concat());
+    }
     if op >= 8 {
         // line level
         let mut lines: Vec<&str> = text.lines().collect();
